@@ -238,13 +238,19 @@ where
             // Received key bundle from a member.
             SpacesArgs::KeyBundle { key_bundle } => {
                 let mut manager = self.inner.write().await;
+                let key_registry_before = manager.identity.key_registry().await?;
                 let event = manager
                     .identity
                     .process_key_bundle(message.author(), key_bundle)
                     .await
                     .map_err(ManagerError::IdentityManager)?;
 
-                (None, None, vec![event])
+                // If we already processed this key bundle nothing changed, emit no event.
+                if manager.identity.key_registry().await? == key_registry_before {
+                    (None, None, vec![])
+                } else {
+                    (None, None, vec![event])
+                }
             }
             SpacesArgs::Auth { .. } => {
                 let event = Group::process(self.clone(), &SpacesMessage::auth(message))
